@@ -4,12 +4,12 @@ from props import common, generic, tree_common as tc
 
 def run(rep):
     return generic.run_generic(
-        rep, tc.TREE_FUNCS + tc.NAV_FUNCS + tc.MATCHER_FUNCS,
+        rep, tc.TREE_FUNCS + tc.NAV_FUNCS + tc.MATCHER_FUNCS + tc.PASS_FUNCS,
         structural=[tc.grouping_frame, tc.flatten_and_str, tc.identity_side_conditions],
         assumptions=['Inv (I1-I6, DESIGN 4.2) as a local invariant with ownership = the tree (methodology, DESIGN 3.3)',
-                     '_group_matching is under contract (index bookkeeping, call preconditions); the joining driver _group '
-                     'and the call-site preconditions 0 <= start <= end < len of the nine simple passes are covered by the '
-                     'bounded stand-in only (not yet under contract)',
+                     '_group_matching (6 classes) and the nine simple passes are under contract: at every group_tokens call '
+                     '0 <= start <= end < len (so the proved group_tokens contract applies) and no exception escapes; the '
+                     'joining driver _group (11 instantiations) is covered by the bounded stand-in only',
                      'get_token_at_offset / within / has_ancestor / is_child_of: bounded stand-in only'],
         trusted=['ownership-based local invariants (methodology)'],
         extra_functions=['sqlparse.engine.grouping.*'])
